@@ -17,6 +17,7 @@ import (
 	"regexp"
 	"runtime"
 	"sort"
+	"strconv"
 	"strings"
 	"syscall"
 	"text/template"
@@ -720,18 +721,15 @@ func RunCompiled(inv Invocation, exePath string, errlog *log.Logger) int {
 	// intentionally pass through unaltered os.Environ here.. your magefile has
 	// to deal with it.
 	c.Env = os.Environ()
-	if inv.Verbose {
-		c.Env = append(c.Env, "MAGEFILE_VERBOSE=1")
-	}
+	// always pass the effective value, so that -v=false overrides the environment
+	c.Env = append(c.Env, "MAGEFILE_VERBOSE="+strconv.FormatBool(inv.Verbose))
 	if inv.List {
 		c.Env = append(c.Env, "MAGEFILE_LIST=1")
 	}
 	if inv.Help {
 		c.Env = append(c.Env, "MAGEFILE_HELP=1")
 	}
-	if inv.Debug {
-		c.Env = append(c.Env, "MAGEFILE_DEBUG=1")
-	}
+	c.Env = append(c.Env, "MAGEFILE_DEBUG="+strconv.FormatBool(inv.Debug))
 	if inv.GoCmd != "" {
 		c.Env = append(c.Env, fmt.Sprintf("MAGEFILE_GOCMD=%s", inv.GoCmd))
 	}
